@@ -33,16 +33,26 @@ fn oracle(t: &str, vals: &[String], numbered: bool) -> Option<String> {
 }
 
 fn check_template(t: &str) -> Option<Witness> {
-    let vals = [10, 20, 30];
-    let lits: Vec<String> = vals.iter().map(|v| v.to_string()).collect();
-    let bs: [(&str, &dyn QueryBuilder, bool); 3] = [("mysql", &MysqlQueryBuilder, false), ("postgres", &PostgresQueryBuilder, true), ("sqlite", &SqliteQueryBuilder, false)];
-    for (name, qb, numbered) in bs {
-        let want = match oracle(t, &lits, numbered) { Some(w) => w, None => continue }; // designates a value that was not supplied
-        let q = Query::select().expr(Expr::cust_with_values(t, vals)).to_owned();
-        let got = match std::panic::catch_unwind(std::panic::AssertUnwindSafe(|| { let mut s = String::new(); q.build_collect_any_into(qb, &mut s); s })) {
-            Ok(s) => s, Err(_) => return Some(Witness { property: "C11", input: t.into(), observed: format!("{name}: panicked"), expected: want }) };
-        let got = got.strip_prefix("SELECT ").unwrap_or(&got).to_string();
-        if got != want { return Some(Witness { property: "C11", input: t.into(), observed: format!("{name}: {got:?}"), expected: format!("{want:?}") }); }
+    // every way of building the fragment: cust_with_values with three values / with NO value (templates that consume none),
+    // cust_with_exprs, cust_with_expr (one value)
+    for (how, nvals) in [("cust_with_values", 3usize), ("cust_with_values", 0), ("cust_with_exprs", 3), ("cust_with_expr", 1)] {
+        let vals: Vec<i32> = [10, 20, 30][..nvals].to_vec();
+        let lits: Vec<String> = vals.iter().map(|v| v.to_string()).collect();
+        let bs: [(&str, &dyn QueryBuilder, bool); 3] = [("mysql", &MysqlQueryBuilder, false), ("postgres", &PostgresQueryBuilder, true), ("sqlite", &SqliteQueryBuilder, false)];
+        for (name, qb, numbered) in bs {
+            let want = match oracle(t, &lits, numbered) { Some(w) => w, None => continue }; // designates a value that was not supplied
+            let e = match how {
+                "cust_with_values" => Expr::cust_with_values(t, vals.clone()),
+                "cust_with_exprs" => Expr::cust_with_exprs(t, vals.iter().map(|v| Expr::val(*v).into()).collect::<Vec<SimpleExpr>>()),
+                _ => Expr::cust_with_expr(t, Expr::val(vals[0])),
+            };
+            let q = Query::select().expr(e).to_owned();
+            let label = if how == "cust_with_values" && nvals == 3 { t.to_string() } else { format!("{how}/{nvals}: {t}") };
+            let got = match std::panic::catch_unwind(std::panic::AssertUnwindSafe(|| { let mut s = String::new(); q.build_collect_any_into(qb, &mut s); s })) {
+                Ok(s) => s, Err(_) => return Some(Witness { property: "C11", input: label, observed: format!("{name}: panicked"), expected: want }) };
+            let got = got.strip_prefix("SELECT ").unwrap_or(&got).to_string();
+            if got != want { return Some(Witness { property: "C11", input: label, observed: format!("{name}: {got:?}"), expected: format!("{want:?}") }); }
+        }
     }
     None
 }
@@ -78,4 +88,8 @@ pub fn search(_obl: &str) -> Vec<Witness> {
     }
     found
 }
-pub fn check_one(label: &str) -> Option<Witness> { if label.starts_with("inject:") { search("").into_iter().find(|w| w.input == label) } else { std::panic::set_hook(Box::new(|_| {})); check_template(label) } }
+pub fn check_one(label: &str) -> Option<Witness> { if label.starts_with("inject:") { search("").into_iter().find(|w| w.input == label) } else {
+    std::panic::set_hook(Box::new(|_| {}));
+    let t = if label.starts_with("cust_with_") { label.split_once(": ").map(|x| x.1).unwrap_or(label) } else { label };
+    check_template(t)
+} }
